@@ -1,11 +1,209 @@
-(* UTF-8: boundary examples only.  The universal statement
-     forall cs b, utf8_encode cs = Some b -> utf8_decode b = Some cs
-   is NOT proved here (see NOTES.md); the C14 theorems speak about the UTF-8 bytes of a
-   text message and what utf8_decode makes of them. *)
-From Coq Require Import List NArith Bool.
+(* UTF-8: decode inverts encode for every list of scalar values (full), via a sweep over
+   all 2^21 candidate code points of a one-code-point decoder that is proved to be the
+   head step of utf8_decode. *)
+From Coq Require Import List NArith Arith Bool Lia.
 Import ListNotations.
 From TV Require Import C14.Utf8.
 Local Open Scope N_scope.
+
+(* one code point and the unread rest *)
+Definition dec1 (l : list N) : option (N * list N) :=
+  match l with
+  | [] => None
+  | b0 :: t0 =>
+    if b0 <? 128 then Some (b0, t0)
+    else if in_rng 194 223 b0 then
+      match t0 with
+      | b1 :: t1 => if cont b1 then Some ((b0 - 192) * 64 + (b1 - 128), t1) else None
+      | _ => None
+      end
+    else if in_rng 224 239 b0 then
+      match t0 with
+      | b1 :: b2 :: t2 =>
+          if in_rng (if b0 =? 224 then 160 else 128) (if b0 =? 237 then 159 else 191) b1 && cont b2
+          then Some ((b0 - 224) * 4096 + (b1 - 128) * 64 + (b2 - 128), t2) else None
+      | _ => None
+      end
+    else if in_rng 240 244 b0 then
+      match t0 with
+      | b1 :: b2 :: b3 :: t3 =>
+          if in_rng (if b0 =? 240 then 144 else 128) (if b0 =? 244 then 143 else 191) b1
+             && cont b2 && cont b3
+          then Some ((b0 - 240) * 262144 + (b1 - 128) * 4096 + (b2 - 128) * 64 + (b3 - 128), t3)
+          else None
+      | _ => None
+      end
+    else None
+  end.
+
+Lemma utf8_decode_step b0 t0 :
+  utf8_decode (b0 :: t0) =
+  match dec1 (b0 :: t0) with Some (c, r) => cons_opt c (utf8_decode r) | None => None end.
+Proof.
+  cbn [utf8_decode dec1].
+  destruct (b0 <? 128); [reflexivity|].
+  destruct (in_rng 194 223 b0).
+  { destruct t0 as [|b1 t1]; [reflexivity|]. destruct (cont b1); reflexivity. }
+  destruct (in_rng 224 239 b0).
+  { destruct t0 as [|b1 [|b2 t2]]; try reflexivity.
+    destruct (in_rng (if b0 =? 224 then 160 else 128) (if b0 =? 237 then 159 else 191) b1 && cont b2); reflexivity. }
+  destruct (in_rng 240 244 b0); [|reflexivity].
+  destruct t0 as [|b1 [|b2 [|b3 t3]]]; try reflexivity.
+  destruct (in_rng (if b0 =? 240 then 144 else 128) (if b0 =? 244 then 143 else 191) b1 && cont b2 && cont b3); reflexivity.
+Qed.
+
+(* dec1 only looks at the bytes it consumes *)
+Lemma dec1_app b c rest : dec1 b = Some (c, []) -> dec1 (b ++ rest) = Some (c, rest).
+Proof.
+  destruct b as [|b0 t0]; [discriminate|]. cbn [app dec1].
+  destruct (b0 <? 128). { intro H; injection H as <- ->. reflexivity. }
+  destruct (in_rng 194 223 b0).
+  { destruct t0 as [|b1 t1]; [discriminate|]. cbn [app]. destruct (cont b1); [|discriminate].
+    intro H; injection H as <- ->. reflexivity. }
+  destruct (in_rng 224 239 b0).
+  { destruct t0 as [|b1 [|b2 t2]]; try discriminate. cbn [app].
+    destruct (in_rng (if b0 =? 224 then 160 else 128) (if b0 =? 237 then 159 else 191) b1 && cont b2); [|discriminate].
+    intro H; injection H as <- ->. reflexivity. }
+  destruct (in_rng 240 244 b0); [|discriminate].
+  destruct t0 as [|b1 [|b2 [|b3 t3]]]; try discriminate. cbn [app].
+  destruct (in_rng (if b0 =? 240 then 144 else 128) (if b0 =? 244 then 143 else 191) b1 && cont b2 && cont b3); [|discriminate].
+  intro H; injection H as <- ->. reflexivity.
+Qed.
+
+(* ---------- sweep over all k-bit numbers ---------- *)
+Fixpoint all_bits (k : nat) (f : N -> bool) (p : N) : bool :=
+  match k with
+  | O => f p
+  | S k' => all_bits k' f (2 * p) && all_bits k' f (2 * p + 1)
+  end.
+
+Lemma all_bits_sound k f : forall p,
+  all_bits k f p = true -> forall x, x < 2 ^ N.of_nat k -> f (p * 2 ^ N.of_nat k + x) = true.
+Proof.
+  induction k as [|k IH]; intros p H x Hx.
+  - simpl in *. replace (p * 1 + x) with p by lia. exact H.
+  - cbn [all_bits] in H. apply andb_true_iff in H as [H0 H1].
+    rewrite Nat2N.inj_succ, N.pow_succ_r' in *.
+    set (P := 2 ^ N.of_nat k) in *.
+    destruct (N.lt_ge_cases x P) as [L|L].
+    + replace (p * (2 * P) + x) with (2 * p * P + x) by ring. apply IH; assumption.
+    + replace (p * (2 * P) + x) with ((2 * p + 1) * P + (x - P)).
+      * apply IH; [assumption|lia].
+      * rewrite N.mul_add_distr_r. replace (2 * p * P) with (p * (2 * P)) by ring. lia.
+Qed.
+
+(* The leading bytes depend only on q = c / 64, the last byte only on c mod 64: the sweep
+   runs over the 17 408 values of q, the last byte is handled symbolically. *)
+Definition enc_hi (q : N) : list N :=
+  if q <? 32 then [192 + q]
+  else if q <? 1024 then [224 + q / 64; 128 + q mod 64]
+  else [240 + q / 4096; 128 + (q / 64) mod 64; 128 + q mod 64].
+
+Definition dec_hi (hi : list N) : option N :=
+  match hi with
+  | [b0] => if in_rng 194 223 b0 then Some (b0 - 192) else None
+  | [b0; b1] =>
+      if in_rng 224 239 b0 && in_rng (if b0 =? 224 then 160 else 128) (if b0 =? 237 then 159 else 191) b1
+      then Some ((b0 - 224) * 64 + (b1 - 128)) else None
+  | [b0; b1; b2] =>
+      if in_rng 240 244 b0 && in_rng (if b0 =? 240 then 144 else 128) (if b0 =? 244 then 143 else 191) b1 && cont b2
+      then Some ((b0 - 240) * 4096 + (b1 - 128) * 64 + (b2 - 128)) else None
+  | _ => None
+  end.
+
+Lemma in_rng_spec lo hi b : in_rng lo hi b = true <-> lo <= b /\ b <= hi.
+Proof. unfold in_rng. rewrite andb_true_iff, !N.leb_le. reflexivity. Qed.
+
+Lemma in_rng_false lo hi b : b < lo \/ hi < b -> in_rng lo hi b = false.
+Proof.
+  intro H. destruct (in_rng lo hi b) eqn:E; [|reflexivity]. apply in_rng_spec in E. lia.
+Qed.
+
+Lemma dec1_last hi x rest K :
+  dec_hi hi = Some K -> cont x = true -> dec1 (hi ++ x :: rest) = Some (K * 64 + (x - 128), rest).
+Proof.
+  intros H Cx. destruct hi as [|b0 [|b1 [|b2 [|b3 t]]]]; try discriminate; cbn [dec_hi] in H; cbn [app dec1].
+  - destruct (in_rng 194 223 b0) eqn:R; [|discriminate]. injection H as <-.
+    apply in_rng_spec in R. destruct (N.ltb_spec b0 128); [lia|]. rewrite Cx. reflexivity.
+  - destruct (in_rng 224 239 b0) eqn:R; [|discriminate]. cbn [andb] in H.
+    destruct (in_rng (if b0 =? 224 then 160 else 128) (if b0 =? 237 then 159 else 191) b1) eqn:R1; [|discriminate].
+    injection H as <-. apply in_rng_spec in R.
+    destruct (N.ltb_spec b0 128); [lia|]. rewrite (in_rng_false 194 223 b0) by lia.
+    rewrite Cx. cbn [andb]. f_equal. f_equal. ring.
+  - destruct (in_rng 240 244 b0) eqn:R; [|discriminate]. cbn [andb] in H.
+    destruct (in_rng (if b0 =? 240 then 144 else 128) (if b0 =? 244 then 143 else 191) b1) eqn:R1; [|discriminate].
+    cbn [andb] in H. destruct (cont b2) eqn:C2; [|discriminate].
+    injection H as <-. apply in_rng_spec in R.
+    destruct (N.ltb_spec b0 128); [lia|]. rewrite (in_rng_false 194 223 b0), (in_rng_false 224 239 b0) by lia.
+    rewrite Cx. cbn [andb]. f_equal. f_equal. ring.
+Qed.
+
+Definition hi_ok (q : N) : bool :=
+  if (2 <=? q) && (q <? 17408) && negb (in_rng 864 895 q)
+  then match dec_hi (enc_hi q) with Some k => k =? q | None => false end
+  else true.
+
+Lemma hi_sweep : all_bits 15 hi_ok 0 = true.
+Proof. vm_compute. reflexivity. Qed.
+
+Lemma div_4096 c : c / 4096 = c / 64 / 64.
+Proof. rewrite N.div_div by discriminate. reflexivity. Qed.
+Lemma div_262144 c : c / 262144 = c / 64 / 4096.
+Proof. rewrite N.div_div by discriminate. reflexivity. Qed.
+
+Lemma utf8_enc1_dec1 c b : utf8_enc1 c = Some b -> dec1 b = Some (c, []).
+Proof.
+  unfold utf8_enc1.
+  destruct (N.ltb_spec c 128) as [H1|H1].
+  { intro H; injection H as <-. cbn [dec1]. destruct (N.ltb_spec c 128); [reflexivity|lia]. }
+  pose proof (N.div_mod c 64 ltac:(discriminate)) as D.
+  pose proof (N.mod_lt c 64 ltac:(discriminate)) as M.
+  set (q := c / 64) in *. set (e := c mod 64) in *.
+  assert (Hb : forall b', b' = enc_hi q ++ [128 + e] -> q < 17408 -> in_rng 864 895 q = false ->
+                          dec1 b' = Some (c, [])).
+  { intros b' -> Q1 Q2.
+    assert (Q0 : 2 <= q) by lia.
+    pose proof (all_bits_sound 15 hi_ok 0 hi_sweep q ltac:(change (2 ^ N.of_nat 15) with 32768; lia)) as S.
+    rewrite N.mul_0_l, N.add_0_l in S. unfold hi_ok in S.
+    destruct (N.leb_spec 2 q); [|lia]. destruct (N.ltb_spec q 17408); [|lia]. rewrite Q2 in S. cbn [andb negb] in S.
+    destruct (dec_hi (enc_hi q)) as [k|] eqn:DH; [|discriminate]. apply N.eqb_eq in S. subst k.
+    rewrite (dec1_last (enc_hi q) (128 + e) [] q DH) by (apply in_rng_spec; lia).
+    f_equal. f_equal. lia. }
+  destruct (N.ltb_spec c 2048) as [H2|H2].
+  { intro H; injection H as <-. apply Hb; [|lia|apply in_rng_false; lia].
+    unfold enc_hi. destruct (N.ltb_spec q 32); [reflexivity|lia]. }
+  destruct (N.ltb_spec c 65536) as [H3|H3].
+  { destruct (in_rng 55296 57343 c) eqn:Sg; [discriminate|]. intro H; injection H as <-.
+    apply Hb; [|lia|].
+    - unfold enc_hi. destruct (N.ltb_spec q 32); [lia|]. destruct (N.ltb_spec q 1024); [|lia].
+      rewrite (div_4096 c). reflexivity.
+    - destruct (in_rng 864 895 q) eqn:Sq; [|reflexivity]. apply in_rng_spec in Sq. exfalso.
+      assert (T : in_rng 55296 57343 c = true) by (apply in_rng_spec; lia). congruence. }
+  destruct (N.ltb_spec c 1114112) as [H4|H4]; [|discriminate].
+  intro H; injection H as <-. apply Hb; [|lia|apply in_rng_false; lia].
+  unfold enc_hi. destruct (N.ltb_spec q 32); [lia|]. destruct (N.ltb_spec q 1024); [lia|].
+  rewrite (div_262144 c), (div_4096 c). reflexivity.
+Qed.
+
+Lemma utf8_enc1_decode c b rest :
+  utf8_enc1 c = Some b -> utf8_decode (b ++ rest) = cons_opt c (utf8_decode rest).
+Proof.
+  intro E. pose proof (utf8_enc1_dec1 c b E) as D.
+  pose proof (dec1_app b c rest D) as DA.
+  destruct b as [|b0 t0]; [discriminate D|].
+  cbn [app] in *. rewrite utf8_decode_step. cbn [app] in DA. rewrite DA. reflexivity.
+Qed.
+
+(* str.encode("utf-8") followed by bytes.decode("utf-8") is the identity, for every string
+   Python can encode *)
+Theorem utf8_roundtrip cs b : utf8_encode cs = Some b -> utf8_decode b = Some cs.
+Proof.
+  revert b; induction cs as [|c cs IH]; intros b H.
+  - injection H as <-. reflexivity.
+  - cbn [utf8_encode] in H. destruct (utf8_enc1 c) as [b1|] eqn:E1; [|discriminate].
+    destruct (utf8_encode cs) as [r|] eqn:E2; [|discriminate]. injection H as <-.
+    rewrite (utf8_enc1_decode c b1 r E1). rewrite (IH r eq_refl). reflexivity.
+Qed.
 
 Example utf8_boundaries :
   utf8_encode [0; 127; 128; 2047; 2048; 55295; 57344; 65535; 65536; 1114111]
